@@ -272,6 +272,8 @@ class Fakes:
                 F.s.log("time", v=F.s.now)
                 return F.s.now
 
+            monotonic = perf_counter = time     # whichever clock the code reads is the virtual one
+
             def sleep(s, x):
                 F.s.gate("sleep")
                 F.s.log("sleep", v=x)
